@@ -141,6 +141,11 @@ def oracleC12Rounds (c : J) : Option String :=
   -- sync that removed the finalizer stays until the parent itself goes away (and the garbage collector takes over)
   if !(quietAt tw (tw.length - 1)) || c.getBool "foreign" || c.getBool "released" then none else
   orElse (check (rs.all (·.outcome != "panic")) "a sync panicked") fun _ =>
+  -- recorded finding F-C12-1: a parent outside the selector that still carries the finalizer is finalized ("finalize on
+  -- deselect"); the finalizer is removed *before* the children are reconciled and the status is written, and a parent
+  -- outside the selector without the finalizer is ignored - so what fails after the removal is never retried
+  orElse (check (!(c.getBool "abandoned") || c.getBool "finalEqualsTwin")
+    "[F-C12-1] finalize on deselect: the finalizer was removed before the failed request, the deselected parent is ignored from then on and the cluster never reaches the state of the fault-free run") fun _ =>
   orElse (check (c.getBool "finalEqualsTwin") "after the fault the cluster did not converge to the state of the fault-free run") fun _ =>
   check (quietAt rs (rs.length - 1)) "after the fault the controller did not go quiet"
 
